@@ -22,6 +22,14 @@ from . import none_or_int, none_or_float, none_or_bool, none_or_dict, \
     remove_important, prefer_important
 from ..configuration_error import ConfigurationError
 
+def _value_or_default(config: Mapping, key: str, default):
+    """A key without a value (None) does not define the setting, it is inherited."""
+    value = config.get(key)
+    if value is None:
+        return default
+    return value
+
+
 def _lt_of_env_dict(a: dict, b: dict):
     assert a != b
 
@@ -46,21 +54,21 @@ class ExpRunDetails(object):
         iterations = prefer_important(config.get('iterations'), defaults.iterations)
         warmup = prefer_important(config.get('warmup'), defaults.warmup)
 
-        min_iteration_time = none_or_int(config.get('min_iteration_time',
-                                                    defaults.min_iteration_time))
-        max_invocation_time = none_or_int(config.get('max_invocation_time',
-                                                     defaults.max_invocation_time))
-        ignore_timeouts = none_or_bool(config.get('ignore_timeouts',
-                                                  defaults.ignore_timeouts))
+        min_iteration_time = none_or_int(_value_or_default(
+            config, 'min_iteration_time', defaults.min_iteration_time))
+        max_invocation_time = none_or_int(_value_or_default(
+            config, 'max_invocation_time', defaults.max_invocation_time))
+        ignore_timeouts = none_or_bool(_value_or_default(
+            config, 'ignore_timeouts', defaults.ignore_timeouts))
 
-        parallel_interference_factor = none_or_float(config.get(
-            'parallel_interference_factor', defaults.parallel_interference_factor))
-        execute_exclusively = none_or_bool(config.get('execute_exclusively',
-                                                      defaults.execute_exclusively))
+        parallel_interference_factor = none_or_float(_value_or_default(
+            config, 'parallel_interference_factor', defaults.parallel_interference_factor))
+        execute_exclusively = none_or_bool(_value_or_default(
+            config, 'execute_exclusively', defaults.execute_exclusively))
 
-        retries_after_failure = none_or_int(config.get('retries_after_failure',
-                                                       defaults.retries_after_failure))
-        env = none_or_dict(config.get('env', defaults.env))
+        retries_after_failure = none_or_int(_value_or_default(
+            config, 'retries_after_failure', defaults.retries_after_failure))
+        env = none_or_dict(_value_or_default(config, 'env', defaults.env))
         if env and not all(isinstance(name, str) for name in env):
             # YAML reads unquoted 1, true or null as int, bool or None;
             # such names can neither be compared nor be passed to a process
